@@ -7,9 +7,11 @@ export CARGO_NET_OFFLINE=true
 # the suite binds fixed ports: never run two suites at once on this machine
 exec 9>/tmp/nun-db-baseline.lock
 flock 9
+# the suite (and every test server it spawns) must not inherit the lock descriptor: a server that
+# outlives its test would otherwise keep the lock for good (9>&- on the cargo command below)
 unset RUSTFLAGS
 rm -f target/nextest/pb/junit.xml
-cargo nextest run --workspace --no-fail-fast --tool-config-file pb:/verif/tools/nextest.toml --profile pb --test-threads 8 --offline >/tmp/baseline_off.log 2>&1
+cargo nextest run --workspace --no-fail-fast --tool-config-file pb:/verif/tools/nextest.toml --profile pb --test-threads 8 --offline >/tmp/baseline_off.log 2>&1 9>&-
 python3 - <<'PY'
 import json, sys, xml.etree.ElementTree as ET
 base = json.load(open('/root/.vp/BASELINE.json'))
